@@ -448,6 +448,76 @@ func runC03(c *Ctx) {
 	// (5) field arithmetic (white box through the verif hook)
 	runC03Field(c)
 
+	// (5b) results are the caller's: every operation is called, its returned coordinates are overwritten in place (as a
+	// caller is free to do — the library's own verifier adds e to the returned x in place), and then the operations are
+	// called again and must give the reference's answers, in particular for the point at infinity, whose coordinates an
+	// implementation might hand out from one shared zero
+	{
+		ra := c.Rng("alias")
+		G := ref.G()
+		negG := ref.Neg(G)
+		for round := 0; round < c.Q(30, 1000); round++ {
+			kx := new(big.Int).SetBytes(ra.Bytes(32))
+			P := ref.Mul(kx, G)
+			px, py := P.XY()
+			nP := ref.Neg(P)
+			nx, ny := nP.XY()
+			type call struct {
+				name string
+				f    func() (*big.Int, *big.Int)
+				want ref.Point
+			}
+			calls := []call{
+				{"Add(P,-P)", func() (*big.Int, *big.Int) { return curve.Add(px, py, nx, ny) }, ref.Infinity()},
+				{"Add(G,-G)", func() (*big.Int, *big.Int) { return curve.Add(G.X, G.Y, negG.X, negG.Y) }, ref.Infinity()},
+				{"Add(O,O)", func() (*big.Int, *big.Int) { return curve.Add(new(big.Int), new(big.Int), new(big.Int), new(big.Int)) }, ref.Infinity()},
+				{"Double(O)", func() (*big.Int, *big.Int) { return curve.Double(new(big.Int), new(big.Int)) }, ref.Infinity()},
+				{"ScalarMult(P,n)", func() (*big.Int, *big.Int) { return curve.ScalarMult(px, py, ref.N.Bytes()) }, ref.Infinity()},
+				{"ScalarMult(P,0)", func() (*big.Int, *big.Int) { return curve.ScalarMult(px, py, []byte{0}) }, ref.Infinity()},
+				{"ScalarBaseMult(n)", func() (*big.Int, *big.Int) { return curve.ScalarBaseMult(ref.N.Bytes()) }, ref.Infinity()},
+				{"Add(P,G)", func() (*big.Int, *big.Int) { return curve.Add(px, py, G.X, G.Y) }, ref.Add(P, G)},
+				{"Double(P)", func() (*big.Int, *big.Int) { return curve.Double(px, py) }, ref.Double(P)},
+				{"ScalarBaseMult(k)", func() (*big.Int, *big.Int) { return curve.ScalarBaseMult(kx.Bytes()) }, P},
+			}
+			// sometimes start with a digest-form verification whose point is the point at infinity: s = -r*d/(1+d), t = r+s
+			if round%3 == 0 {
+				d := new(big.Int).SetBytes(ra.Bytes(31))
+				d.Add(d, big.NewInt(2))
+				Q := ref.Mul(d, G)
+				rr := new(big.Int).SetBytes(ra.Bytes(31))
+				rr.Add(rr, big.NewInt(1))
+				inv := new(big.Int).ModInverse(new(big.Int).Add(d, big.NewInt(1)), ref.N)
+				ss := new(big.Int).Mul(rr, d)
+				ss.Mul(ss, inv).Neg(ss).Mod(ss, ref.N)
+				if ss.Sign() > 0 {
+					mon.Guard(func() { sm2.Verify(&sm2.PublicKey{Curve: curve, X: Q.X, Y: Q.Y}, ra.Bytes(32), rr, ss) })
+				}
+			}
+			order := ra.Intn(len(calls))
+			for i := 0; i < len(calls)*2; i++ {
+				cl := calls[(order+i*7)%len(calls)]
+				var x, y *big.Int
+				if pi := mon.Guard(func() { x, y = cl.f() }); pi != nil {
+					rep.Violation("C03/aliasing/panic/"+pi.Func, pi.Value, map[string]interface{}{"op": cl.name})
+					continue
+				}
+				wx, wy := cl.want.XY()
+				if x.Cmp(wx) != 0 || y.Cmp(wy) != 0 {
+					rep.Violation("C03/"+cl.name+"/result-depends-on-what-callers-did-with-earlier-results", fmt.Sprintf("got %s want %s (earlier results of this and other operations had been overwritten in place by the caller)", ptStr(x, y), ptStr(wx, wy)),
+						map[string]interface{}{"op": cl.name, "k": kx.Text(16), "round": round})
+					break
+				}
+				// the caller clobbers what it was given
+				x.SetInt64(int64(1000 + i))
+				y.Add(y, big.NewInt(12345))
+			}
+			if px.Cmp(P.X) != 0 || py.Cmp(P.Y) != 0 || G.X.Cmp(ref.Gx) != 0 {
+				rep.Violation("C03/aliasing/operand-modified", "an input coordinate was changed by an operation", nil)
+			}
+			rep.Eval("aliasing/results-overwritten-by-caller")
+		}
+	}
+
 	// (6) GenerateKey with scripted readers
 	{
 		type rd struct {
